@@ -250,6 +250,89 @@ def parse_leaf_functions(text):
     return out
 
 
+def parse_multi_functions(text):
+    """void functions returning through pointer parameters:
+         name -> ([(type text, param, is_pointer)], body text)   (body translated at the call site)"""
+    text = strip_comments(text)
+    out = {}
+    for m in re.finditer(r"^void\s*\n?([A-Za-z_]\w*)\s*\(([^)]*)\)\s*\n\{(.*?)\n\}", text, re.M | re.S):
+        name, params, body = m.group(1), m.group(2), m.group(3)
+        ps = []
+        ok = True
+        for q in params.split(","):
+            q = " ".join(q.split())
+            pm = re.fullmatch(r"(.*?)(\*?)\s*([A-Za-z_]\w*)", q)
+            if not pm or not pm.group(1).strip():
+                ok = False
+                break
+            ps.append((pm.group(1).strip(), pm.group(3), pm.group(2) == "*"))
+        if ok and any(p[2] for p in ps):
+            out[name] = (ps, body)
+    return out
+
+
+def inline_multi(fname, arg_irs, cx, depth=0):
+    """Outputs (in pointer-parameter order) of a straight-line multi-result function applied to the
+    translated inputs.  Anything but declarations, assignments, `v op= e`, `*p = e`, calls of other
+    such functions with `&v` outputs and `return` is outside the subset."""
+    if depth > 6:
+        raise CParseError("multi-function recursion")
+    ps, body = cx.multis[fname]
+    ins = [p for p in ps if not p[2]]
+    outs = [p for p in ps if p[2]]
+    if len(ins) != len(arg_irs):
+        raise CParseError("%s: %d inputs expected" % (fname, len(ins)))
+    if "{" in body or "}" in body:
+        raise CParseError("%s: compound statement" % fname)
+    env = {p[1]: ("cast", cx.types.cty(p[0]), a) for p, a in zip(ins, arg_irs)}
+    vty = {p[1]: cx.types.cty(p[0]) for p in ps}
+    res = {}
+    for s in [x.strip() for x in body.split(";") if x.strip()]:
+        if s == "return":
+            break
+        m = re.fullmatch(r"([A-Za-z_][\w ]*?)\s+((?:[A-Za-z_]\w*\s*,\s*)*[A-Za-z_]\w*)", s)
+        if m and (m.group(1) in cx.types.named or m.group(1) in BASE_CTY):
+            for v in m.group(2).split(","):
+                vty[v.strip()] = cx.types.cty(m.group(1))
+            continue
+        m = re.fullmatch(r"\*\s*([A-Za-z_]\w*)\s*=\s*(.*)", s, re.S)
+        if m and m.group(1) in [o[1] for o in outs]:
+            res[m.group(1)] = ("cast", vty[m.group(1)], tr(cx.parse(m.group(2)), cx, env))
+            continue
+        m = re.fullmatch(r"([A-Za-z_]\w*)\s*(\+|-|\*)?=\s*(.*)", s, re.S)
+        if m and m.group(1) in vty and not m.group(3).startswith("="):
+            v, op, rhs = m.group(1), m.group(2), tr(cx.parse(m.group(3)), cx, env)
+            if op:
+                if v not in env:
+                    raise CParseError("%s: %s used before it is set" % (fname, v))
+                rhs = ("bin", BINOPS[op], env[v], rhs)
+            env[v] = ("cast", vty[v], rhs)
+            continue
+        m = re.fullmatch(r"([A-Za-z_]\w*)\s*\((.*)\)", s, re.S)
+        if m and m.group(1) in cx.multis:
+            actual = [a.strip() for a in split_args(m.group(2))]
+            gps = cx.multis[m.group(1)][0]
+            if len(actual) != len(gps):
+                raise CParseError("%s: call of %s" % (fname, m.group(1)))
+            gin, gout = [], []
+            for a, gp in zip(actual, gps):
+                if gp[2]:
+                    am = re.fullmatch(r"&\s*([A-Za-z_]\w*)", a)
+                    if not am or am.group(1) not in vty:
+                        raise CParseError("%s: output argument %s" % (fname, a))
+                    gout.append(am.group(1))
+                else:
+                    gin.append(tr(cx.parse(a), cx, env))
+            vals = inline_multi(m.group(1), gin, cx, depth + 1)
+            for v, val in zip(gout, vals):
+                env[v] = ("cast", vty[v], val)
+            continue
+        raise CParseError("%s: statement outside the subset: %s" % (fname, s[:60]))
+    if any(o[1] not in res for o in outs):
+        raise CParseError("%s: an output is never assigned" % fname)
+    return [simp(res[o[1]]) for o in outs]
+
+
 # ------------------------------------------------------------------ IR
 
 LIBC = {"isdigit": 1, "isalpha": 1, "tolower": 1, "toupper": 1}
@@ -261,6 +344,8 @@ BINOPS = {"+": "Add", "-": "Sub", "*": "Mul", "/": "Div", "%": "Mod", "<<": "Shl
 
 
 class Ctx:
+    multis = {}
+
     def __init__(self, types, macros, leafs, operand):
         self.types, self.macros, self.leafs, self.operand = types, macros, leafs, operand
         self.depth = 0
@@ -358,7 +443,8 @@ def tr(e, cx, env=None):
                 cx.depth -= 1
         return ("call", f, args)
     if k == "sizeof":
-        raise CParseError("sizeof")
+        return ("lit", {"U8": 1, "S8": 1, "S16": 2, "S32": 4, "U32": 4, "S64": 8, "U64": 8, "F32": 4, "F64": 8,
+                        "PTR": 8}[cx.types.cty(e[1])], "U64")
     raise CParseError("outside the subset: " + cexpr.show(e))
 
 
@@ -377,12 +463,62 @@ def simp(e):
     if k == "un":
         return ("un", e[1], simp(e[2]))
     if k == "bin":
-        return ("bin", e[1], simp(e[2]), simp(e[3]))
+        a, b = simp(e[2]), simp(e[3])
+        if a[0] == "lit" and b[0] == "lit" and e[1] in ("Add", "Sub", "Mul", "Div", "Shl"):
+            c = const_bin(e[1], a, b)
+            if c is not None:
+                return c
+        return ("bin", e[1], a, b)
     if k == "cond":
         return ("cond", simp(e[1]), simp(e[2]), simp(e[3]))
     if k == "call":
         return ("call", e[1], [simp(a) for a in e[2]])
+    if k == "guard":
+        return ("guard", simp(e[1]), simp(e[2]))
     return e
+
+
+INT_RANGE = {"U8": (0, 255), "S8": (-128, 127), "S16": (-2 ** 15, 2 ** 15 - 1), "S32": (-2 ** 31, 2 ** 31 - 1),
+             "U32": (0, 2 ** 32 - 1), "S64": (-2 ** 63, 2 ** 63 - 1), "U64": (0, 2 ** 64 - 1)}
+
+
+def c_promote(t):
+    return "S32" if t in ("U8", "S8", "S16", "S32") else t
+
+
+def c_join(a, b):
+    a, b = c_promote(a), c_promote(b)
+    for t in ("U64", "S64", "U32"):
+        if t in (a, b):
+            return t
+    return "S32"
+
+
+def const_bin(op, a, b):
+    """An integer constant expression of two literals, with C's typing (as CInt.v); only when the
+    result is representable, so that no wrap-around is decided here."""
+    if a[2] not in INT_RANGE or b[2] not in INT_RANGE:
+        return None
+    ty = c_promote(a[2]) if op == "Shl" else c_join(a[2], b[2])
+    x, y = a[1], b[1]
+    if op == "Add":
+        v = x + y
+    elif op == "Sub":
+        v = x - y
+    elif op == "Mul":
+        v = x * y
+    elif op == "Div":
+        if y == 0 or x < 0 or y < 0:
+            return None
+        v = x // y
+    else:
+        if not 0 <= y < (64 if ty in ("S64", "U64") else 32) or x < 0:
+            return None
+        v = x << y
+    lo, hi = INT_RANGE[ty]
+    if not (lo <= x <= hi and lo <= y <= hi and lo <= v <= hi):
+        return None
+    return ("lit", v, ty)
 
 
 def has_kind(e, kinds):
@@ -461,7 +597,9 @@ def parse_bval_sig(src):
         rows.append({"name": name, "tag": tag, "sidefx": int(sfx),
                      "args": [FTY.get(a, "FOther") for a in ats],
                      "ret": FTY.get(ret, "FOther") if int(retc) == 1 else "FMulti",
-                     "retc": int(retc)})
+                     "retc": int(retc),
+                     "rets": [FTY.get(x.strip(), "FOther") for x in rets.split(",") if x.strip()][:int(retc)]
+                     if int(retc) > 1 else []})
     # every enumerator of foam.h must have a row
     enum = re.findall(r"\bFOAM_BVal_(\w+)\s*[,=]", strip_comments(read(src, "foam.h")))
     return rows, enum
@@ -612,9 +750,11 @@ def parse_fint(src, types, macros, leafs, sig):
             except CParseError:
                 pass
     rows = []
+    sigd = {r["name"]: r for r in sig}
     for name, chunk in switch_cases(body):
         row = {"name": name, "text": " ".join(chunk.split())}
         sts = statements(chunk)
+        sg = sigd.get(name)
         try:
             if sts is None:
                 raise CParseError("compound statement")
@@ -630,12 +770,46 @@ def parse_fint(src, types, macros, leafs, sig):
                         raise CParseError("operand %s used but never evaluated" % v)
                     if e[2] not in fields:
                         raise CParseError("union field " + e[2])
-                    if e[2] == "fiWord" and v not in forced:
+                    if e[2] == "fiWord" and v not in forced and not (
+                            sg is not None and order.index(v) < len(sg["args"]) and sg["args"][order.index(v)] == "FWord"):
                         raise CParseError("%s.fiWord without fintForceBoolToWord" % v)
                     return ("arg", order.index(v), fields[e[2]])
                 return None
             cx = Ctx(types, macros, leafs, operand)
+            sg = sigd.get(name)
+            nres = None
+            multi_call = None       # (function, inputs IR, [(out position, ("res", k, field) | ("tmp", var, field))])
+            tmp_to_res = {}
             for s in sts:
+                m = re.fullmatch(r"retDataObj\s*->\s*ptr\s*=\s*fintAlloc\s*\(\s*union\s+dataObj\s*,\s*(\d)\s*\)", s)
+                if m:
+                    nres = int(m.group(1))
+                    continue
+                m = re.fullmatch(r"retDataObj\s*->\s*ptr\[(\d)\]\s*\.\s*(fi\w+)\s*=\s*(expr\d)\s*\.\s*(fi\w+)", s)
+                if m and multi_call is not None:
+                    if m.group(2) != m.group(4):
+                        raise CParseError("result copied through another union field")
+                    tmp_to_res[m.group(3)] = (int(m.group(1)), m.group(2))
+                    continue
+                m = re.fullmatch(r"([A-Za-z_]\w*)\s*\((.*)\)", s, re.S)
+                if m and nres is not None and multi_call is None and m.group(1).startswith("fi") \
+                        and "retDataObj" in s or (m and nres is not None and multi_call is None and re.search(r"&\s*expr\d", s)):
+                    ins, outs = [], []
+                    for a in split_args(m.group(2)):
+                        a = a.strip()
+                        om = re.fullmatch(r"(?:\([\w\s]+\*\s*\)\s*)?&\s*\(?\s*retDataObj\s*->\s*ptr\[(\d)\]\s*\.\s*(fi\w+)\s*\)?", a)
+                        if om:
+                            outs.append(("res", int(om.group(1)), om.group(2)))
+                            continue
+                        om = re.fullmatch(r"(?:\([\w\s]+\*\s*\)\s*)?&\s*\(?\s*(expr\d)\s*\.\s*(fi\w+)\s*\)?", a)
+                        if om:
+                            outs.append(("tmp", om.group(1), om.group(2)))
+                            continue
+                        if outs:
+                            raise CParseError("input after an output argument")
+                        ins.append(tr(cx.parse(a), cx, {}))
+                    multi_call = (m.group(1), ins, outs)
+                    continue
                 m = re.fullmatch(r"(?:type\s*=\s*|\(void\)\s*)?fintEval\s*\(\s*&\s*(expr\d)\s*\)", s)
                 if m:
                     if m.group(1) in order:
@@ -666,6 +840,34 @@ def parse_fint(src, types, macros, leafs, sig):
                     result = (m.group(1), ("cast", fields[m.group(1)], tr(cx.parse(m.group(2)), cx, {})))
                     continue
                 raise CParseError("statement outside the subset: " + s[:80])
+            if multi_call is not None:
+                f, ins, outs = multi_call
+                resmap = []
+                for o in outs:
+                    if o[0] == "res":
+                        resmap.append((o[1], o[2]))
+                    else:
+                        if o[1] not in tmp_to_res or tmp_to_res[o[1]][1] != o[2]:
+                            raise CParseError("output temporary %s is not copied to a result" % o[1])
+                        resmap.append(tmp_to_res[o[1]])
+                if sg is None or [k for k, _ in resmap] != list(range(sg["retc"])) or nres != sg["retc"]:
+                    raise CParseError("results are not the outputs in order")
+                row["nargs"] = len(order)
+                row["rty"] = mytype
+                comps = None
+                if f in cx.multis:
+                    try:
+                        comps = inline_multi(f, ins, cx)
+                    except CParseError as ex:
+                        row["multi_why"] = str(ex)
+                if comps is not None:
+                    for k, ((_, fld), c) in enumerate(zip(resmap, comps)):
+                        rows.append({"name": "%s#%d" % (name, k), "text": row["text"], "nargs": len(order),
+                                     "rty": sg["rets"][k], "exp": simp(("cast", fields[fld], c)), "component": (name, k)})
+                    continue
+                row["exp"] = simp(("call", f, ins))
+                rows.append(row)
+                continue
             if result is None:
                 raise CParseError("no result")
             row["nargs"] = len(order)
@@ -752,7 +954,22 @@ def parse_genc(src, types, macros, leafs, sig):
                     ir = ("cast", rcty, tr(cx.parse(rhs), cx, env))
                     variants.append(("macro", ir))
                 if special == 0:
-                    if mac is None:
+                    if mac is None and sg["retc"] > 1:
+                        # gc0SetValues: f(args..., &lhs0, &lhs1, ...): the outputs in order
+                        comps = None
+                        if s in cx.multis:
+                            try:
+                                comps = inline_multi(s, [("cast", a[2], a) for a in args], cx)
+                            except CParseError:
+                                comps = None
+                        if comps is not None and len(comps) == sg["retc"]:
+                            for k, c in enumerate(comps):
+                                rows.append({"name": "%s#%d" % (name, k), "variant": "expr", "cco": cco, "special": special,
+                                             "str": s, "macro": mac, "rty": sg["rets"][k], "component": (name, k),
+                                             "exp": simp(("cast", fcty.get(sg["rets"][k], "PTR"), c))})
+                            continue
+                        variants.append(("expr", call(s, [("cast", a[2], a) for a in args])))
+                    elif mac is None:
                         # plain call, each argument cast to its declared type (gc0TryCast)
                         variants.append(("expr", call(s, [("cast", a[2], a) for a in args])))
                 else:
@@ -859,6 +1076,17 @@ def collect(src):
     for f in ("foam_c.c", "foam_i.c"):
         leafs.update(parse_leaf_functions(read(src, f)))
     leafs = {k: v for k, v in leafs.items() if k.startswith("fi")}
+    # double-word arithmetic (dword.c): its half-word macros, and the straight-line multi-result functions
+    dw = parse_defines(read(src, "dword.c"))
+    for k in ("MODB", "BASE_BITS", "BASE_BITS_2", "BASE_ROOT", "BASE_MINUS_1", "COMPL", "LO_HALF_LO", "HI_HALF_LO",
+              "LO_HALF_HI", "HI_HALF_HI", "COMBINE", "HI_BIT"):
+        if k in dw:
+            keep[k] = dw[k]
+    keep["CHAR_BIT"] = (None, "8")
+    multis = {}
+    for f in ("foam_c.c", "foam_i.c", "dword.c"):
+        multis.update(parse_multi_functions(read(src, f)))
+    Ctx.multis = {k: v for k, v in multis.items() if k.startswith("fi") or k.startswith("xx")}
     sig, enum = parse_bval_sig(src)
     return types, keep, leafs, sig, enum
 
@@ -909,9 +1137,14 @@ def broken_ties(tr_):
 
 
 def sigrow_of(sig, name):
+    """Signature of a builtin, or of component k of a multi-result builtin (name "X#k")."""
+    base, _, k = name.partition("#")
     for r in sig:
-        if r["name"] == name:
-            return r
+        if r["name"] == base:
+            if not k:
+                return r
+            if int(k) < len(r.get("rets", [])):
+                return dict(r, name=name, ret=r["rets"][int(k)])
     return None
 
 
@@ -930,6 +1163,12 @@ def emit_coq(tr_, known_bad):
     w("Definition bval_sig : list sigrow := [")
     w(";\n".join("  mksig \"%s\" [%s] %s %s" % (r["name"], "; ".join(r["args"]), r["ret"],
                                                  "true" if r["sidefx"] else "false") for r in sig))
+    w("].")
+    w("")
+    w("(* components of the multi-result builtins: \"X#k\" is result k of X *)")
+    w("Definition bval_comp_sig : list sigrow := [")
+    w(";\n".join("  mksig \"%s#%d\" [%s] %s %s" % (r["name"], k, "; ".join(r["args"]), rt, "true" if r["sidefx"] else "false")
+                  for r in sig for k, rt in enumerate(r.get("rets", []))))
     w("].")
     w("")
     w("(* foam.h: enumerators FOAM_BVal_* *)")
